@@ -664,7 +664,12 @@ class Check(PropertyCheck):
     def model_lines(self, case):
         if case.get("op") == "upval":
             return ["upval " + (".".join("%x" % ord(c) for c in case["text"]) or "-")]
-        if case.get("op") == "replay": return None     # oracle only (the replay handler is outside both models)
+        if case.get("op") == "replay":
+            # (running in upstream mode, a flow recorded in another mode trips an assertion in HttpLayer.Start and writes
+            #  nothing: outside the model, oracle only)
+            if case["run"] == "upstream" and case["rec"] != "upstream": return None
+            return [f"replay {1 if case['auth'] else 0} {case['run']} {1 if case['scheme'] == 'https' else 0} "
+                    f"{1 if case['host'] == 'target' else 0}"]
         if case.get("pauth") == "bad": return None     # ProxyAuth refuses everything: oracle only (nothing may be written)
         modes_ = ",".join(c["mode"] for c in case["conns"])
         a = 1 if case["auth"] else 0
@@ -673,7 +678,7 @@ class Check(PropertyCheck):
         return [f"runv {a} {modes_} {self.run_events(case)}", f"routev {a} {modes_} {self.route_events(case)}"]
 
     def model_obs(self, case, replies):
-        if case.get("op") == "upval": return replies[0]
+        if case.get("op") in ("upval", "replay"): return replies[0]
         if len(replies) == 1: return {"run": "-", "route": replies[0]}
         return {"run": replies[0], "route": replies[1]}
 
@@ -699,6 +704,13 @@ class Check(PropertyCheck):
 
     def impl_view(self, case, obs):
         if case.get("op") == "upval": return obs["unit"]
+        if case.get("op") == "replay":
+            ws = []
+            for w in obs["steps"][0]["writes"]:
+                if w["stray"] or w["other_auth"] or len(w["creds"]) > 1: return f"?write:{w}"
+                ws.append(f"{w['dest']}.{w['form']}." + (self.HDR.get(w["creds"][0], "?") if w["creds"] else "none") +
+                          (".tls" if w["tls"] else ""))
+            return "[" + "+".join(ws) + "]" + ("?errors" if obs["errors"] else "")
         pairs = [(st, o) for st, o in zip(case["steps"], obs["steps"]) if st["k"] != "opt"]
         toks = [self.step_token(case, st, o) for st, o in pairs]
         # the routing model additionally predicts the connection that carried the request: address, tls, sni, via, reuse
